@@ -407,6 +407,30 @@ def sweep_stage(ctx, cov):
     cov["sweeper_race_failures"] = bad
 
 
+def clock_stage(ctx, cov):
+    """C12 under contention: explicit future timestamps on one key while other threads write automatically to other
+    keys of the same clock shard (free-running); an accepted explicit timestamp must be in the shard clock when the
+    call returns, and the key's next automatic write must not be refused as older"""
+    ok, out = cargo_build(ctx, ["conc"])
+    if not ok:
+        return
+    outs = run_conc(ctx, 4, ["cases=0", "clockrace=%d" % (6 if ctx.tier == "quick" else 200)])
+    n = bad = 0
+    for o in outs:
+        if "crash" in o:
+            violation(ctx, "conc harness did not finish: " + o["crash"], o["crash"], tag="crash")
+            continue
+        n += o["meta"]["kinds"].get("clockrace case", 0)
+        for f in o["fails"]:
+            if f["prop"] == "C12":
+                bad += 1
+                if bad <= 2:
+                    violation(ctx, "automatic versions under contention: " + f["what"], "# re-run: harness/target/release/conc --seed %d cases=0 clockrace=...\n# %s\n" % (ctx.seed * 1000 + outs.index(o), f["what"]), tag="clockrace")
+    ctx.log("clock stage: %d contention cases, %d failures" % (n, bad))
+    cov["clock_contention_cases"] = n
+    cov["clock_contention_failures"] = bad
+
+
 def scan_stage(ctx, cov):
     """C14's concurrent clauses: range queries parked at every iteration while keys around them are
     inserted and deleted; the Lean scan model must predict when each scan returns and what, and the
